@@ -5274,39 +5274,58 @@ class DfaCompileCtx:
 
     def _verify_fallthrough_loop(self):
         """
-        Check if any transitions pointing to their own state are fallthrough, which is invalid
-        since it would cause an infinite loop
+        Check that no symbol can be handed around a cycle of transitions that do not consume it (fallthrough transitions,
+        conditions, breaks taken on a fallthrough transition), which is invalid since it would cause an infinite loop
         """
 
+        symbols = {DFTransition.Else} # Else stands for every symbol which no state mentions
         for state in self.dfa.states:
-            for transition in state.transitions:
-                if not transition.is_fallthrough:
+            if not isinstance(state, DFConditionPoint):
+                symbols |= state.local_alphabet()
+        # the end of input is only ever dispatched by the end function
+        if ProgramData.do(ProgramFlag.EOF_SUPPORT):
+            symbols.add(DFTransition.End)
+        else:
+            symbols.discard(DFTransition.End)
+
+        def non_consuming_moves(state, symbol):
+            if isinstance(state, DFConditionPoint):
+                transitions = state.transitions
+            else:
+                transition = state[symbol]
+                transitions = [transition] if transition is not None and transition.is_fallthrough else []
+            for transition in transitions:
+                reaches_target = True
+                for action in transition.actions:
+                    # a break taken here re-dispatches the symbol at the end of its loop
+                    for subaction in action.all_subactions():
+                        if isinstance(subaction, BreakAction):
+                            yield transition, subaction.refers_to.end_state
+                    if action.get_target_override_mode() in [ActionOverrideMode.ALWAYS_GOTO_OTHER, ActionOverrideMode.ALWAYS_GOTO_UNDEFINED] and transition.target not in action.get_target_override_targets():
+                        reaches_target = False
+                        break
+                if reaches_target and transition.target is not None:
+                    yield transition, transition.target
+
+        reachable = list(self.dfa.dfs())
+        for symbol in symbols:
+            finished = set()
+            for root in reachable:
+                if root in finished:
                     continue
-
-                visited = set()
-                def consider(transition):
-                    return not any(x.get_target_override_mode() in [ActionOverrideMode.ALWAYS_GOTO_OTHER, ActionOverrideMode.ALWAYS_GOTO_UNDEFINED] and transition.target not in x.get_target_override_targets() for x in transition.actions)
-
-                def aux(x):
-                    if isinstance(x, DFConditionPoint):
-                        for i in x.transitions:
-                            if i.target in visited:
-                                continue
-                            if consider(i):
-                                visited.add(i.target)
-                                aux(i.target)
+                path = [root]
+                pending = [non_consuming_moves(root, symbol)]
+                while pending:
+                    for transition, target in pending[-1]:
+                        if target in path:
+                            raise IllegalDFAStateError("Infinite loop due to self-referential fallthrough", transition)
+                        if target not in finished:
+                            path.append(target)
+                            pending.append(non_consuming_moves(target, symbol))
+                            break
                     else:
-                        real_target = x[transition.on_values]
-                        if real_target and real_target.is_fallthrough and consider(real_target):
-                            if real_target.target not in visited:
-                                visited.add(real_target.target)
-                                aux(real_target.target)
-                
-                aux(state)
-
-                if state in visited:
-                    raise IllegalDFAStateError("Infinite loop due to self-referential fallthrough", transition)
-        
+                        finished.add(path.pop())
+                        pending.pop()
 
     def compile(self):
         """
